@@ -1,5 +1,6 @@
 import Hls.Proofs.MediaRT
 import Hls.Proofs.WrittenRT
+import Hls.Proofs.ParsedMedia
 /-!
 # C03 — a media playlist survives serialise → parse
 
@@ -80,6 +81,20 @@ theorem media_fixed_point_wf (e : Option Nat) (s : Str) (p p' : MediaPlaylist) (
     (h : parseMediaWith (bE e) s = .ok p) (hk2 : NoK2 p) (wf : MediaWF p)
     (ht : p.show = .ok text) (h' : parseMediaWith (bE e) text = .ok p') : p'.show = p.show :=
   media_fixed_point e s p p' text h hk2 (written_lines_rt p wf) ht h'
+
+/-- **the round trip for everything the parser returns**: whatever text `s` the playlist `p` was parsed from,
+writing `p` and parsing the result gives `p` back — under `NoK2 p` (finding K2: no key line between a
+segment's EXT-X-MAP and its URI) and `MediaOpen p`: Rust's decimal formatting of each EXTINF duration reads back
+(FL2), and the two tag kinds whose line-level round trip is not proved here (EXT-X-START, EXT-X-DATERANGE) read
+back. Everything else `MediaWF` asks for is *derived* from the fact that `p` came out of the parser
+(`text_lines_good`, `assembled_mediaWF`): integers are below 2^64, strings are free of quotes and line ends,
+keys have a non-blank URI, a 128-bit IV and at most nine one-byte versions, ranges lie inside 2^64, URI lines and
+unknown tags are trimmed single lines that classify the same way again. -/
+theorem media_roundtrip_parsed (e : Option Nat) (s : Str) (p : MediaPlaylist)
+    (h : parseMediaWith (bE e) s = .ok p) (hk2 : NoK2 p) (ho : MediaOpen p) :
+    ∃ text, p.show = .ok text ∧ parseMediaWith (bE e) text = .ok p := by
+  obtain ⟨rest, ls, _, h2, h3⟩ := parseMediaWith_ok (bE e) s p h
+  exact media_roundtrip_wf e s p h hk2 (assembled_mediaWF e ls p h3 (text_lines_good rest ls h2) ho)
 
 /-- the former finding K3 (`KEY a, KEY b(f), segment, KEY NONE, KEY a, segment`): since the `fix:`
 that makes the writer print the reset, it round-trips -/
